@@ -160,3 +160,55 @@ def f_sample_large(case):
     for j in range(5):
         check(G.contains(l[j], k[j]) == 1, 'sampled operator on %d qubits is not a group element with the right sign' % N, 'large-sample')
     return {'nt': True, 'labels': ['N=%d' % N, 'r=%d' % r]}
+
+
+# ---- algebra on many qubits (C01-C04) -------------------------------------------------------------------------------------------
+def _rand_ops(N, n, seed):
+    rs = np.random.RandomState(seed)
+    return rs.randint(0, 4, size=(n, N)).astype(np.int64), rs.randint(0, 4, size=n).astype(np.int64)
+
+
+def f_algebra_large(case):
+    """products, rotations, map application, compose and inverse on N = 12..100 qubits against the vectorised reference model."""
+    be, N, what = case['be'], case['N'], case['what']
+    Bk = B.backend(be)
+    L, K = _rand_ops(N, 6, case['seed'])
+    if what == 'product':
+        acc = Bk.pauli(L[0], K[0]); al, ak = L[0], K[0]
+        for j in range(1, 6):
+            acc = acc @ Bk.pauli(L[j], K[j]); al, ak = ref.pmul(al, ak, L[j], K[j])
+        l, k = Bk.read_pauli(acc)
+        check((l == al).all() and k == int(ak), 'chain product on %d qubits: phase %d expected %d' % (N, k, int(ak)), 'large-product')
+        u = Bk.mods()['u']
+        check(int(Bk.num(u.acq(Bk.pauli(L[0], 0).g, Bk.pauli(L[1], 0).g))) == int(ref.anti(L[0], L[1])), 'acq on %d qubits' % N, 'large-acq')
+    elif what == 'rotate':
+        gl, _ = _rand_ops(N, 1, case['seed'] + 1)
+        gk = 2 * (case['seed'] % 2)
+        obj = Bk.plist(L, K)
+        obj.rotate_by(Bk.pauli(gl[0], gk))
+        el, ek = ref.rotate_rule(L, K, gl[0], gk)
+        from checks import common as C
+        C.expect_list(Bk.read_list(obj), (el, ek), 'rotation on %d qubits' % N, 'large-rotate')
+    else:
+        c = ref.random_big_clifford(N, case['seed'], case['ngates'])
+        from checks import common as C
+        if what == 'transform':
+            obj = Bk.plist(L, K)
+            obj.transform_by(Bk.cmap(c))
+            C.expect_list(Bk.read_list(obj), c.apply(L, K), 'transform_by on %d qubits' % N, 'large-transform')
+        elif what == 'inverse':
+            inv = Bk.cmap(c).inverse()
+            il, ik = Bk.read_list(inv)
+            e = c.inverse()
+            C.expect_list((il, ik), (e.L, e.K), 'inverse on %d qubits' % N, 'large-inverse')
+        else:
+            d = ref.random_big_clifford(N, case['seed'] + 1, case['ngates'])
+            cd = Bk.cmap(c).compose(Bk.cmap(d))
+            e = c.compose(d)
+            C.expect_list(Bk.read_list(cd), (e.L, e.K), 'compose on %d qubits' % N, 'large-compose')
+    return {'nt': True, 'labels': ['N=%d' % N, what]}
+
+
+def st_algebra(be, whats, sizes=(12, 31, 32, 33, 63, 64, 65, 100)):
+    return st.fixed_dictionaries({'be': st.just(be), 'N': st.sampled_from(list(sizes)), 'what': st.sampled_from(whats), 'seed': st.integers(0, 10 ** 6),
+                                  'ngates': st.sampled_from([0, 10, 100])})
